@@ -27,12 +27,12 @@ Proof. exact loop_step_inv. Qed.
 Print Assumptions C03_step_invariant.
 
 (* every failure kind the loader can produce becomes an error entry stored under the error's own specifier *)
-Theorem C03_error_entry : forall W o st it e,
-  try_load W it = PErr e ->
+Theorem C03_error_entry : forall W o st it e calls,
+  try_load W it = (PErr e, calls) ->
   lookup (berr_spec e) (st_slots (process W o st it)) = Some (BErr e).
 Proof.
-  intros W o st it e H. unfold process. rewrite H.
-  unfold set_slot, with_slots. cbn [st_slots]. apply lookup_set_assoc_same.
+  intros W o st it e calls H. unfold process. rewrite H.
+  unfold set_slot. cbn. apply lookup_set_assoc_same.
 Qed.
 Print Assumptions C03_error_entry.
 
@@ -41,10 +41,10 @@ Definition c03_dep (t : N) (target : spec) : dep * bool :=
   ({| d_text := t; d_filelike := false; d_code := ROk target 7; d_type := RNone; d_dyn := false;
       d_deno_types := false; d_attr := 0 |}, false).
 Definition c03_world : world :=
-  {| w_resp := [(1, WModule 1 {| wm_media := MTypeScript; wm_parse_ok := true; wm_kind := MkJs;
+  {| w_resp := [(1, WModule 1 {| wm_hash_raw := 0; wm_hash_text := 0; wm_media := MTypeScript; wm_parse_ok := true; wm_kind := MkJs;
                                  wm_deps := [c03_dep 10 2; c03_dep 11 3]; wm_tdep := None |});
                 (2, WError); (3, WRedirect 4); (4, WRedirect 3)];
-     w_class := []; w_file := []; w_max_redirects := 3 |}.
+     w_resp_reload := []; w_http := []; w_lock := None; w_class := []; w_file := []; w_max_redirects := 3 |}.
 Definition c03_opts : bopts :=
   {| bo_kind := KAll; bo_is_dynamic := false; bo_skip_dynamic := false; bo_unstable_bytes := false;
      bo_unstable_text := false; bo_unstable_css := false |}.
